@@ -66,8 +66,19 @@ def get_mask_with_key_joins(data, key_joins, subset_state, view=None):
             key_right_all = []
 
             for cid1_i, cid2_i in zip(cid1, cid2):
-                key_left_all.append(data.get_data(cid1_i, view=view).ravel())
-                key_right_all.append(other.get_data(cid2_i, view=mask_right).ravel())
+                key_left = np.asarray(data.get_data(cid1_i, view=view)).ravel()
+                key_right = np.asarray(other.get_data(cid2_i, view=mask_right)).ravel()
+                # The combined keys are compared as raw bytes, so the two
+                # sides of each key column need to have the same dtype
+                try:
+                    dtype = np.result_type(key_left, key_right)
+                except TypeError:
+                    pass
+                else:
+                    key_left = key_left.astype(dtype, copy=False)
+                    key_right = key_right.astype(dtype, copy=False)
+                key_left_all.append(key_left)
+                key_right_all.append(key_right)
 
             key_left_all = concatenate_arrays(*key_left_all)
             key_right_all = concatenate_arrays(*key_right_all)
